@@ -982,6 +982,10 @@ class Tr:
                 return K[1](st, env, "tt", "unit")
             b, t, kd = self.E(c["a"][0], st, env)
             return "\n".join(b + [K[1](st, env, t, kd)])
+        if k == "if" and len(c["a"]) >= 3 and c["a"][0]["k"] == "decls":
+            # if (init; cond) A else B  is  { init; if (cond) A else B }   ([stmt.if])
+            blk = dict(k="block", t="", n=None, a=[c["a"][0], dict(c, a=c["a"][1:])])
+            return self.S([blk] + rest, st, env, K)
         if k == "if":
             b, t, kd = self.E(c["a"][0], st, env)
             if kd != "bool":
